@@ -96,7 +96,7 @@ fn execute_found(sc: &Scenario, acc: &mut Acc) -> Result<Vec<Found>, String> {
             m.nodes.remove("GC_LOCK");
         });
     }
-    let damages = match damage_in_scenario {
+    let mut damages = match damage_in_scenario {
         Some(d) => vec![d],
         None if enumerate => {
             acc.exhaustive_within_scenario = true;
@@ -104,6 +104,9 @@ fn execute_found(sc: &Scenario, acc: &mut Acc) -> Result<Vec<Found>, String> {
         }
         None => vec![],
     };
+    if super::cap_plans(&mut damages, super::plan_cap(6 * w.store().nodes.len(), 4000), sc.seed) {
+        acc.hit("enumeration_capped");
+    }
     let last_opts = sc
         .steps
         .iter()
